@@ -37,6 +37,9 @@ type nitroEnv struct {
 	inVisit  int
 	// the guard allocator also served instances whose (failed) loads are outside C07
 	allocShared bool
+	// user-level node chaining through nitro.NodeList (Node.Link of live nodes)
+	chain   *nitro.NodeList
+	chained map[int][]byte
 	closeIvs [][2]int64
 	lastRec  *snapRec
 }
@@ -170,6 +173,10 @@ func newNitroEnv(env *Env) *nitroEnv {
 	ne.nkeys = p.Knob("nkeys", 4)
 	ne.cfg = ne.makeConfig()
 	ne.db = nitro.NewWithConfig(ne.cfg)
+	if p.Knob("chain", 0) == 1 && !ne.overlap {
+		ne.chain = nitro.NewNodeList(nil)
+		ne.chained = map[int][]byte{}
+	}
 	return ne
 }
 
@@ -345,12 +352,18 @@ func (ne *nitroEnv) execWriterOp(name string, wi int, op Op) {
 			out.Node = ne.idOf(n)
 			ne.handles[wi][k] = n
 			out.Val = string(item)
+			if ne.chain != nil {
+				// the application links the nodes of its live items into its own list
+				ne.chain.Add(n)
+				ne.chained[k] = append([]byte{}, item...)
+			}
 		}
 		if !ne.overlap && out.Ok != want {
 			ne.env.Violate("C02", "put-result", "%s Put(k%d) returned %v, reference set says %v", name, k, out.Ok, want)
 		}
 	case "del", "del2":
 		in.Op = "del"
+		ne.unchain(k)
 		var want bool
 		if !ne.overlap {
 			want = ne.model.Delete(k)
@@ -371,6 +384,7 @@ func (ne *nitroEnv) execWriterOp(name string, wi int, op Op) {
 			ne.env.Violate("C02", "delete-result", "%s Delete(k%d) returned %v, reference set says %v", name, k, out.Ok, want)
 		}
 	case "delnode":
+		ne.unchain(k)
 		h := ne.handles[wi][k]
 		if h == nil || (ne.overlap && ne.mm) {
 			// no handle this writer may still own (or handle validity cannot be
@@ -816,4 +830,44 @@ func (ne *nitroEnv) closesOverlapped() bool {
 		}
 	}
 	return false
+}
+
+// unchain takes the node of key k out of the application's node list before
+// the item is deleted (NodeList.Remove leaves the removed node's own link set).
+func (ne *nitroEnv) unchain(k int) {
+	if ne.chain == nil {
+		return
+	}
+	if b, ok := ne.chained[k]; ok {
+		if ne.chain.Remove(b) == nil {
+			ne.env.Violate("C07", "nodelist-lost-node", "NodeList.Remove did not find the node of a live item (k%d): the list was corrupted", k)
+		}
+		delete(ne.chained, k)
+	}
+}
+
+// checkChain compares the application's node list with the live items it chained.
+func (ne *nitroEnv) checkChain() {
+	if ne.chain == nil {
+		return
+	}
+	got := map[string]int{}
+	n := 0
+	for _, b := range ne.chain.Keys() {
+		got[string(b)]++
+		n++
+		if n > 100000 {
+			ne.env.Violate("C07", "nodelist-cycle", "the application's node list does not end")
+			return
+		}
+	}
+	for k, b := range ne.chained {
+		if got[string(b)] != 1 {
+			ne.env.Violate("C07", "nodelist-corrupted", "the node of live item k%d appears %d times in the application's node list", k, got[string(b)])
+			return
+		}
+	}
+	if n != len(ne.chained) {
+		ne.env.Violate("C07", "nodelist-corrupted", "the application's node list holds %d nodes, %d live items were chained", n, len(ne.chained))
+	}
 }
